@@ -118,6 +118,17 @@ MUTANTS += [
     ("c12-global-normalise", ["C12"], [("nflows/distributions/normal.py", "        neg_energy = -0.5 * \\\n            torchutils.sum_except_batch(inputs ** 2, num_batch_dims=1)", "        neg_energy = -0.5 * \\\n            torchutils.sum_except_batch((inputs - inputs.mean(dim=0)) ** 2, num_batch_dims=1)")], "BM-REDUCE"),
 ]
 
+MUTANTS += [
+    # ---- C19 ----
+    ("c19-leaky-type-tensor", ["C19"], [(T + "nonlinearities.py", "        mask = (inputs < 0).to(inputs.dtype)\n        logabsdet = self.log_negative_slope * mask", "        mask = (inputs < 0).type(torch.Tensor)\n        logabsdet = self.log_negative_slope * mask")], "DT-RESULT"),
+    ("c19-householder-eye", ["C19"], [(T + "orthogonal.py", "            dtype=self.q_vectors.dtype,\n", "")], "DT-MIX"),
+    ("c19-naive-eye", ["C19"], [(LIN, "            dtype=self._weight.dtype,\n", "")], "DT-MIX"),
+    ("c19-lu-zeros", ["C19"], [(T + "lu.py", "lower = self.lower_entries.new_zeros(self.features, self.features)", "lower = torch.zeros(self.features, self.features)")], "DT-MIX"),
+    ("c19-identity-logdet-float", ["C19"], [(T + "permutations.py", "        logabsdet = inputs.new_zeros(batch_size)", "        logabsdet = torch.zeros(batch_size)")], "DT-RESULT"),
+    ("c19-exp-float-cast", ["C19"], [(T + "nonlinearities.py", "        outputs = torch.exp(inputs)\n        logabsdet = torchutils.sum_except_batch(inputs, num_batch_dims=1)", "        outputs = torch.exp(inputs)\n        logabsdet = torchutils.sum_except_batch(inputs.float(), num_batch_dims=1)")], "DT-RESULT"),
+    ("c19-qr-diag-mm", ["C19"], [(T + "svd.py", "        diagonal = torch.diag(self.diagonal)\n        weight, _ = self.orthogonal_2.inverse(diagonal)", "        diagonal = torch.eye(self.features) * 1.0\n        weight, _ = self.orthogonal_2.inverse(diagonal)")], "DT-MIX"),
+]
+
 BENIGN = [
     ("b-c06-rename-local", ["C06"], [(MADE1, "        prev_out_degrees = self.initial_layer.degrees\n        for _ in range(num_blocks):", "        prev_out_degrees = self.initial_layer.degrees\n        for _blk in range(num_blocks):")]),
     ("b-c06-guard-form", ["C06"], [(MADE1, "if torch.all(self.degrees >= in_degrees).item() != 1:", "if not torch.all(in_degrees <= self.degrees):")]),
@@ -139,5 +150,7 @@ BENIGN = [
     ("b-c07-pred-form", ["C07"], [(CPL, "features_vector.masked_select(mask <= 0)", "features_vector.masked_select(~(mask > 0))")]),
     ("b-c12-guard-reduction", ["C12"], [(T + "nonlinearities.py", "        if torch.min(inputs) <= 0.:", "        if inputs.min() <= 0.:")]),
     ("b-c12-rowwise-mean", ["C12"], [(T + "nonlinearities.py", "        outputs = torch.tanh(inputs)\n        logabsdet = torch.log(1 - outputs ** 2)", "        outputs = torch.tanh(inputs) + 0.0 * inputs.mean(dim=-1, keepdim=True)\n        logabsdet = torch.log(1 - outputs ** 2)")]),
+    ("b-c19-eye-promoting", ["C19"], [(T + "qr.py", "identity = torch.eye(self.features, self.features)", "identity = torch.eye(self.features)")]),
+    ("b-c19-like-ctor", ["C19"], [(T + "permutations.py", "        logabsdet = inputs.new_zeros(batch_size)", "        logabsdet = torch.zeros(batch_size, dtype=inputs.dtype, device=inputs.device)")]),
     ("b-c14-guard-order", ["C14"], [(NORM, "if self.training and not self.initialized:", "if not self.initialized and self.training:")]),
 ]
